@@ -43,6 +43,9 @@ class SimLoop(asyncio.BaseEventLoop):
         self._p_small = float(cfg.get("cost_small_p", 0.0))
         self._small_max = float(cfg.get("cost_small_max", 0.001))
         self._p_stall = float(cfg.get("cost_stall_p", 0.0))
+        self.s_wall = choices.stream("clock.wall")
+        self._p_wall = float(cfg.get("wall_jump_p", 0.0))
+        self._wall_max = float(cfg.get("wall_jump_max", 86400.0))
         self._stall_min = float(cfg.get("cost_stall_min", 0.05))
         self._stall_max = float(cfg.get("cost_stall_max", 0.5))
         self.crash_hook: Optional[Callable[[int], None]] = None   # called with callback index
@@ -137,6 +140,10 @@ class SimLoop(asyncio.BaseEventLoop):
                 elif p_small and s_cost.chance(p_small):
                     d = s_cost.uniform(0.0, self._small_max)
                     clock.inject(int(d * 1e9))
+            if self._p_wall and self.stalls_on and self.s_wall.chance(self._p_wall):
+                # the wall clock steps (forwards or backwards); monotonic time is unaffected
+                clock.wall_offset_ns += int(self.s_wall.uniform(-self._wall_max, self._wall_max) * 1e9)
+                self.result.fault("wall_clock_jump")
             if monitors:
                 for m in monitors:
                     m()
